@@ -9,9 +9,11 @@ Open Scope N_scope.
 (* retained_files_exist at full strength: in every reachable state, every file referenced by the persisted document of a
    completed handle that no retention update dropped exists. FALSE of the faithful model (finding D11): after ODrop of the
    object that created a checkpoint's tables, a collection deletes them although the document is still retained. *)
-Definition retained_files_exist_full_statement : Prop :=
-  forall ops id, (forall d ids, In (ORetain d ids) ops -> In id ids) ->
-    handle_dir (run (init_world 60 1000) ops) id <> None -> handle_files_exist (run (init_world 60 1000) ops) id = true.
+Definition retained_files_exist_full_statement : Prop := retained_files_exist_full 60 1000.
+
+Theorem retained_files_exist_full_refuted : ~ retained_files_exist_full_statement.
+Proof. exact full_statement_refuted. Qed.
+Print Assumptions retained_files_exist_full_refuted.
 
 Theorem retained_files_exist_refuted :
   let w := run (init_world 60 1000) d11_history in
